@@ -131,6 +131,13 @@ def compare(c, d, identical):
 class MemFS(Model):
     def __init__(self):
         self.files = {}
+        self.mtime = {}
+        self._clock = 0
+
+    def touch(self, path):
+        # modification times advance in whole seconds only every other write: two quick writes can share a timestamp
+        self._clock += 1
+        self.mtime[path] = self._clock // 2
 
     def open(self, path, mode="r"):
         return MemFile(self, str(path), mode)
@@ -141,6 +148,7 @@ class MemFile(Model):
         self._fs, self._path, self._mode = fs, path, mode
         if "w" in mode:
             fs.files[path] = ""
+            fs.touch(path)
         elif path not in fs.files:
             raise ModelRaise("FileNotFoundError", path)
 
@@ -157,9 +165,67 @@ class MemFile(Model):
         return False
 
 
+class MStat(Model):
+    def __init__(self, size, mtime):
+        self.st_size = size
+        self.st_mtime = mtime
+        self.st_mtime_ns = mtime * 1000000000
+
+
 class MPath(Model):
-    def __init__(self, p):
-        self._p = str(p)
+    """pathlib.Path over the in-memory file system (`_fs` is set by the rule); equal and hashing equal when the paths are."""
+
+    _fs = None
+
+    def __init__(self, *parts):
+        self._p = "/".join(str(x) for x in parts).replace("//", "/") if parts else "."
+
+    def __eq__(self, o):
+        return isinstance(o, MPath) and o._p == self._p
+
+    def __hash__(self):
+        return hash(("MPath", self._p))
+
+    def __fspath__(self):
+        return self._p
+
+    def __truediv__(self, other):
+        return MPath(self._p, other)
+
+    @property
+    def name(self):
+        return self._p.rsplit("/", 1)[-1]
+
+    @property
+    def parent(self):
+        return MPath(self._p.rsplit("/", 1)[0] if "/" in self._p else ".")
+
+    def with_suffix(self, suf):
+        base = self._p.rsplit(".", 1)[0] if "." in self.name else self._p
+        return MPath(base + suf)
+
+    def exists(self):
+        return self._p in self._fs.files
+
+    is_file = exists
+
+    def stat(self):
+        if self._p not in self._fs.files:
+            raise ModelRaise("FileNotFoundError", self._p)
+        return MStat(len(self._fs.files[self._p]), self._fs.mtime.get(self._p, 0))
+
+    def read_text(self, *a, **k):
+        if self._p not in self._fs.files:
+            raise ModelRaise("FileNotFoundError", self._p)
+        return self._fs.files[self._p]
+
+    def write_text(self, text, *a, **k):
+        self._fs.files[self._p] = text
+        self._fs.touch(self._p)
+        return len(text)
+
+    def open(self, mode="r", *a, **k):
+        return self._fs.open(self._p, mode)
 
     @property
     def stem(self):
@@ -231,6 +297,7 @@ def run(chk):
     env_io = P.env(FILE)
     env_io["open"] = fs.open
     env_io["Path"] = MPath
+    MPath._fs = fs
     picks = [x for x in model_circuits() if x[0] in ("reconv", "blackbox", "xnor3", "output-is-input-and-gate-mix")]
     for name, c, bbs in picks:
         for path, wfmt, rfmt, beh in ((f"/mem/{c.name}.v", "verilog", None, False), (f"/mem/{c.name}.v", "verilog", None, True), (f"/mem/{c.name}.txt", "verilog", "verilog", False),
@@ -249,6 +316,25 @@ def run(chk):
             has_const = any(c.type(x) in ("0", "1", "x") for x in c.nodes())
             prob = compare(c, r2[1], identical=(not beh and not has_const))
             chk.ob("C03.F.files", key, prob is None, file=FILE, func="to_file/from_file", fact=prob or {"bytes": len(fs.files[path])}, expect="round trip through to_file/from_file preserves the circuit")
+    # one path written and read several times in one process, the texts having the same length and (half of the time) the same
+    # modification time: every read returns what was written last
+    same_len = {t_: build({"a": ("input", []), "b": ("input", []), "n1": (t_, ["a", "b"]), "o": ("buf", ["n1"])}, outputs=["o"], name="same") for t_ in ("and", "xor", "nor", "or_")[:3]}
+    MPath._fs = fs
+    prob = None
+    for t_, cc in same_len.items():
+        r = P.call(FILE, "to_file", cc, "/mem/reused.v")
+        r2 = P.call(FILE, "from_file", "/mem/reused.v")
+        n += 1
+        if r[0] != "return" or r2[0] != "return" or not isinstance(r2[1], RefCircuit):
+            prob = {"problem": "write / read fails", "write": str(r)[:80], "read": str(r2)[:80]}
+            break
+        if "n1" not in r2[1]:
+            prob = {"problem": "the circuit read back lacks the gate that was written", "nodes": sorted(r2[1].nodes())}
+            break
+        if r2[1].type("n1") != t_:
+            prob = {"problem": "from_file returned an earlier content of the same path", "written": t_, "read_back": r2[1].type("n1"), "text_lengths": "equal"}
+            break
+    chk.ob("C03.F.files", "file::one path rewritten with texts of equal length", prob is None, file=FILE, func="to_file/from_file", fact=prob or {"writes": len(same_len)}, expect="every read returns the circuit written last")
     c = picks[0][1]
     r = P.call(FILE, "to_file", c, "/mem/x.v", "vhdl")
     chk.ob("C03.F.files", "to_file::unknown format rejected", r[0] == "raise" and r[1] == "ValueError", file=FILE, func="to_file", fact={"result": str(r)[:100]}, expect="ValueError")
